@@ -537,6 +537,168 @@ def check_cases(res, cases):
             res.sample(dict(label=label, case=text, queued=obs))
 
 
+# ---------------------------------------------------------------- announcements DURING the real set-up (async_setup)
+ANSWERABLE = {57: ("product", "product-info"), 85: ("regdata_schema", []), 61: ("total_alerts", 3), 58: ("password", "0000")}
+
+
+def gen_setup_case(rng):
+    """B start `async_setup()` (its requests go out); A<k> the controller answers set-up kind k (the value `provides` names is
+    dispatched); T the clock moves 3 s (one request time-out: unanswered kinds are asked again, after the third the set-up ends and
+    dispatches `frame_errors` ITSELF); announcements in between, before `frame_errors` is known, and after"""
+    answered = rng.sample(sorted(ANSWERABLE), rng.randint(0, 4))
+    pool = SETUP + rng.sample(REQUESTS, 2)
+    last = {}
+    evs = []
+
+    def ann(n):
+        for _ in range(n):
+            kinds = rng.sample(pool, rng.randint(1, 4))
+            body = []
+            for k in kinds:
+                v = gen_version(rng, last.get(k)) if rng.random() < 0.8 else 0
+                last[k] = v
+                body.append((k, v))
+            evs.append((rng.choice("sr"), body))
+
+    ann(rng.choice([0, 0, 1]))
+    evs.append(("B", None))
+    todo = list(answered)
+    rng.shuffle(todo)
+    for step_ in range(3):
+        ann(rng.choice([0, 1, 1, 2]))
+        for k in [k for k in todo if rng.random() < 0.5]:
+            evs.append(("A", k))
+            todo.remove(k)
+            ann(rng.choice([0, 0, 1]))
+        evs.append(("T", None))
+    ann(rng.randint(1, 3))
+    return evs
+
+
+def setup_text(evs):
+    return " ".join(k if b is None else f"A{b}" if k == "A" else k + (",".join(f"{a}:{v}" for a, v in b) or "-") for k, b in evs)
+
+
+def parse_setup(text):
+    evs = []
+    for w in text.split():
+        if w in ("B", "T"):
+            evs.append((w, None))
+        elif w[0] == "A":
+            evs.append(("A", int(w[1:])))
+        else:
+            evs.append((w[0], [] if w[1:] == "-" else [tuple(int(x) for x in e.split(":")) for e in w[1:].split(",")]))
+    return evs
+
+
+def run_setup_case(runner, evs):
+    """-> (model words, observation per model word, anomalies)"""
+    loop = runner.loop
+    aio_events._set_running_loop(loop)
+    try:
+        queue = asyncio.Queue()
+        dev = EcoMAX(queue, NetworkInfo())
+        words, obs, anomalies = [], [], []
+        answered, n_t, task = set(), 0, None
+        t0 = None
+
+        def drain():
+            kinds = []
+            while not queue.empty():
+                f = queue.get_nowait()
+                kinds.append(int(f.frame_type))
+                if not isinstance(f, Request) or int(f.recipient) != int(DeviceType.ECOMAX):
+                    anomalies.append(f"queued {type(f).__name__} to {int(f.recipient)}")
+            return kinds
+
+        for kind, body in evs:
+            if kind == "B":
+                task = loop.create_task(dev.async_setup())
+                runner.settle()
+                if queue.empty():
+                    # EcoMAX.async_setup first waits for sensor data: a sensor-data message without version entries starts it
+                    dev.handle_frame(SensorDataMessage(message=bytearray(sensor_payload([])), sender=DeviceType.ECOMAX, recipient=DeviceType.ECONET))
+                    runner.settle()
+                    words.append("a-")
+                    obs.append([])
+                t0 = loop.time()
+                got = drain()
+                if got != SETUP:
+                    anomalies.append(f"set-up asked for {got}, the set-up kinds are {SETUP}")
+                for k in got:
+                    words.append(f"q{k}:1")
+                    obs.append([k])
+            elif kind == "A":
+                name, value = ANSWERABLE[body]
+                dev.dispatch_nowait(name, value)
+                runner.settle()
+                answered.add(body)
+                extra = drain()
+                if extra:
+                    anomalies.append(f"answering {name} queued {extra}")
+            elif kind == "T":
+                n_t += 1
+                loop.settle(until=t0 + 3.0 * n_t + 0.001)
+                runner.settle()
+                got = drain()
+                pending = [k for k in SETUP if k not in answered]
+                if n_t < 3:
+                    if sorted(got) != sorted(pending):      # (the order of simultaneous time-outs is the timer heap's)
+                        anomalies.append(f"after time-out #{n_t} the set-up asked again for {got}, unanswered are {pending}")
+                    for k in got:
+                        words.append(f"q{k}:1")
+                        obs.append([k])
+                else:
+                    if got:
+                        anomalies.append(f"the end of the set-up queued {got}")
+                    errors = dev.get_nowait("frame_errors", None)
+                    if errors is None or sorted(int(k) for k in errors) != sorted(pending) or not task.done():
+                        anomalies.append(f"set-up ended with frame_errors {errors}, unanswered are {pending}")
+                    words.append("e" + (",".join(map(str, pending)) or "-"))
+                    obs.append([])
+            else:
+                payload = sensor_payload(body) if kind == "s" else regdata_payload(body)
+                cls = SensorDataMessage if kind == "s" else RegulatorDataMessage
+                dev.handle_frame(cls(message=bytearray(payload), sender=DeviceType.ECOMAX, recipient=DeviceType.ECONET))
+                runner.settle()
+                words.append("a" + (",".join(f"{a}:{v}" for a, v in body) or "-"))
+                obs.append(drain())
+        if task is not None and not task.done():
+            task.cancel()
+        dev.cancel_tasks()
+        runner.settle()
+        return words, obs, anomalies
+    finally:
+        aio_events._set_running_loop(None)
+
+
+def check_setup(res, cases):
+    runner = Runner()
+    try:
+        runs = [run_setup_case(runner, evs) for evs in cases]
+    finally:
+        runner.close()
+    answers = driver_batch(" ".join(["c15"] + words) for words, _, _ in runs)
+    verdicts = driver_batch(" ".join(["c15judge"] + words + ["|"] + [",".join(map(str, o)) or "-" for o in obs]) for words, obs, _ in runs)
+    for evs, (words, obs, anomalies), ans, verdict in zip(cases, runs, answers, verdicts):
+        text = "setup " + setup_text(evs)
+        inp = dict(case=text, label="setup")
+        model_q = [] if ans == "." else [[] if a.split("/")[0] == "-" else [int(x) for x in a.split("/")[0].split(",")] for a in ans.split(";")]
+        during = sum(1 for i, (k, _) in enumerate(evs) if k in "sr" and any(e[0] == "B" for e in evs[:i]) and sum(1 for e in evs[:i] if e[0] == "T") < 3)
+        res.case(text, during >= 1 and any(o for w, o in zip(words, obs) if w[0] == "a"))
+        res.count("label:setup")
+        res.count("announcements while async_setup() is running (frame_errors not known yet): " + ("0" if not during else "1-2" if during < 3 else "3+"))
+        if any(v == 0 for k, b in evs if k in "sr" for _, v in b):
+            res.count("version 0 announced (first time / unchanged / after another version)")
+        res.count("set-up kinds answered: %d of 4 answerable" % sum(1 for k, _ in evs if k == "A"))
+        if anomalies:
+            res.fail("spec", inp, "set-up requests, re-attempts and frame_errors as the set-up kinds prescribe", anomalies, "set-up bookkeeping")
+        if verdict != "pass":
+            res.fail("spec", inp, dict(model=model_q), dict(queued=obs, judge=verdict, events=words), "C15.spec fails on the frames the implementation queued around a real set-up")
+        elif obs != model_q:
+            res.fail("corr", inp, model_q, obs, "announcement model and the device differ around a real set-up")
+
+
 # ---------------------------------------------------------------- overlapping announcements (held executor)
 class OverlapRunner:
     """`Request.create` imports the handler class through run_in_executor; with the executor HELD the harness decides
@@ -577,9 +739,12 @@ class OverlapRunner:
                         seen.setdefault(k, set()).add(v)
                     events.append(["a" + (",".join(f"{k}:{v}" for k, v in body) or "-"), f"m{moved}"])
                 else:
-                    idx = owners.index(body)
-                    owners.pop(idx)
-                    self.loop.release(idx)
+                    if body in owners:
+                        idx = owners.index(body)
+                        owners.pop(idx)
+                        self.loop.release(idx)
+                    # (a handler that is NOT suspended where the machine suspends it: nothing to release; the history goes on and
+                    # is judged by the statement — the machine will differ)
                     moved = body
                     events.append([f"m{moved}"])
                 self.loop.settle()
@@ -613,6 +778,11 @@ def run_overlap(res, rng, n_cases):
             [("s", [(54, 1)]), ("r", [(54, 2)]), ("x", 1), ("x", 0)],                       # last writer wins
             [("r", [(49, 1), (50, 1)]), ("s", [(50, 1), (49, 1)]), ("x", 0), ("x", 1), ("x", 0)],
             [("s", [(49, 1)]), ("x", 0), ("r", [(49, 1)])],                                 # no overlap: one request
+            # overlapping announcements with DIFFERENT versions for one kind, then released in either order
+            [("r", [(49, 2)]), ("r", [(49, 3)]), ("x", 0), ("x", 1)],
+            [("s", [(54, 5)]), ("r", [(54, 6)]), ("x", 0), ("x", 1)],
+            [("s", [(54, 5)]), ("r", [(54, 6)]), ("s", [(54, 7)]), ("x", 2), ("x", 1), ("x", 0)],
+            [("s", [(49, 0)]), ("x", 0), ("r", [(49, 1), (54, 1)]), ("s", [(49, 2), (54, 1)]), ("x", 1), ("x", 2), ("x", 1), ("x", 2)],
         ]
         for ops in fixed:
             ev, obs, _ = runner.run_case(ops)
@@ -629,7 +799,9 @@ def run_overlap(res, rng, n_cases):
                 if pending and rng.random() < 0.5:
                     ops.append(("x", rng.choice(pending)))
                 elif n < 5:
-                    body = [(k, rng.choice([1, 1, 2])) for k in rng.sample(kinds, rng.randint(1, len(kinds)))]
+                    vmode = rng.random()
+                    body = [(k, rng.choice([1, 1, 2]) if vmode < 0.5 else n + rng.choice([0, 0, 1]) if vmode < 0.85 else rng.choice([0, 1, 65535]))
+                            for k in rng.sample(kinds, rng.randint(1, len(kinds)))]
                     if rng.random() < 0.1:
                         body.insert(rng.randrange(len(body) + 1), (rng.choice(FOREIGN + UNKNOWN[:3]), 1))
                     ops.append((rng.choice("sr"), body))
@@ -644,6 +816,43 @@ def run_overlap(res, rng, n_cases):
     finally:
         runner.close()
     check_overlap(res, cases)
+
+
+def overlap_statement(ops, obs):
+    """The statement on an overlap history, from the observations alone (sound for ANY interleaving): take an announcement made
+    of supported request kinds only.  Its handler runs at once up to the FIRST entry (k, v) whose version differs from the record
+    as observed just before the announcement ("a version different from the one the library last recorded"), and suspends there
+    in Request.create.  Once that handler has finished: (a) the record of k has shown v at some observation after the
+    announcement ("the new version is recorded"), and (b) at least one request of kind k was queued at or after it."""
+    out = []
+    unsup = set()
+    n_task = -1
+    for i, (kind, body) in enumerate(ops):
+        if kind == "e":
+            unsup = set(body)
+            continue
+        if kind not in "sr":
+            continue
+        n_task += 1
+        if any(k not in REQUESTS for k, _ in body):
+            continue
+        before = obs[i - 1].split("/") if i > 0 else ["-", "-", "-"]
+        rec = dict(tuple(int(x) for x in e.split(":")) for e in before[1].split(",")) if before[1] != "-" else {}
+        first = next(((k, v) for k, v in dict(body).items() if k not in unsup and rec.get(k) != v), None)
+        if first is None:
+            continue
+        phases = obs[-1].split("/")[2].split(",")
+        if n_task >= len(phases) or phases[n_task] != "f":
+            continue                       # its handler is still suspended at the end of the history
+        k, v = first
+        shown = any(f"{k}:{v}" in o.split("/")[1].split(",") for o in obs[i:])
+        q_before = [] if before[0] == "-" else before[0].split(",")
+        q_end = [] if obs[-1].split("/")[0] == "-" else obs[-1].split("/")[0].split(",")
+        if not shown:
+            out.append(f"op #{i}: kind {k} announced with version {v} (recorded before: {rec.get(k)}), handler finished, but version {v} was never on record")
+        elif q_end.count(str(k)) - q_before.count(str(k)) < 1:
+            out.append(f"op #{i}: kind {k} announced with version {v} (recorded before: {rec.get(k)}), no request of kind {k} queued at or after it")
+    return out
 
 
 def parse_overlap(text):
@@ -673,6 +882,11 @@ def check_overlap(res, cases):
             q, r, t = st.split("/")
             t = ",".join("w" if x.startswith("w") else "c" if x == "c" else "f" for x in t.split(",")) if t != "-" else "-"
             model.append(f"{q}/{r}/{t}")
+        for msg in overlap_statement(ops, obs):
+            res.fail("spec", dict(case="overlap " + text, label=label), "every announcement whose version differs from the record is refreshed and recorded",
+                     dict(observed=obs, what=msg), "an announcement with a version different from the recorded one queued no refresh / was never recorded")
+        if any(len(set(v for kk, b in ops if kk in "sr" for a, v in b if a == k0)) > 1 for k0 in set(a for kk, b in ops if kk in "sr" for a, _ in b)):
+            res.count("overlap: one kind announced with DIFFERENT versions in one history")
         if model != obs:
             k = next((i for i, (a, b) in enumerate(zip(model, obs)) if a != b), 0)
             res.fail("corr", dict(case="overlap " + text, label=label), model[k:k + 1], obs[k:k + 1],
@@ -840,7 +1054,7 @@ def run(ctx):
                 "once-subscribers that raise; executor jobs (the class import of every Request.create) completing at once or only when the loop is idle; "
                 "a section with TWO devices (EcoMAX 0x45, EcoSTER 0x51) on one write queue, the same kinds announced to both in turn, recipients observed. distinct = distinct history text; non-trivial = >= 2 announcements, "
                 "at least one that queued a request and one that queued nothing")
-    cases = [(parse_case(ln), "corpus") for _, ln in load_corpus("C15") if not ln.startswith("devices")]
+    cases = [(parse_case(ln), "corpus") for _, ln in load_corpus("C15") if not ln.startswith("devices") and not ln.startswith("setup")]
     cases.extend(gen_cases(rng, ctx["tier"]))
     if ctx.get("max_cases"):
         cases = cases[: ctx["max_cases"]]
@@ -849,6 +1063,9 @@ def run(ctx):
         dcases = [parse_devices(ln) for _, ln in load_corpus("C15") if ln.startswith("devices")]
         dcases += [gen_devices(rng) for _ in range(400 if ctx["tier"] == "quick" else 8000)]
         check_devices(res, dcases)
+        scases = [parse_setup(ln[len("setup "):]) for _, ln in load_corpus("C15") if ln.startswith("setup ")]
+        scases += [gen_setup_case(rng) for _ in range(300 if ctx["tier"] == "quick" else 6000)]
+        check_setup(res, scases)
         try:
             run_overlap(res, rng, 150 if ctx["tier"] == "quick" else 3000)
         except ValueError as e:
@@ -870,6 +1087,9 @@ def replay(ctx):
     res.rule = "replay of one recorded history"
     if f["input"]["case"].startswith("devices"):
         check_devices(res, [parse_devices(f["input"]["case"])])
+        return res
+    if f["input"]["case"].startswith("setup "):
+        check_setup(res, [parse_setup(f["input"]["case"][len("setup "):])])
         return res
     if f["input"]["case"].startswith("overlap "):
         ops = parse_overlap(f["input"]["case"][len("overlap "):])
